@@ -365,8 +365,6 @@ Qed.
 (* ------------------------------------------------------------------ every transfer of every kind returns *)
 Definition own_P (x : oxfer) (B : N) (s : sstate) : Prop :=
   match x with XRdUpTo k | XRdExact k => rd_P k B s | XWrUpTo k | XWrAll k => wr_P k B s end.
-Definition tbytes (t : otarget) : N :=
-  match t with OSlice _ slen => slen | ORegion r => g_len r | OGuest L => total_len L end.
 
 Lemma omap_val_ex {A B} (g : A -> B) (o : outcome A) : (exists v, o = Val v) -> exists v, omap g o = Val v.
 Proof. intros [v ->]. eexists; reflexivity. Qed.
@@ -391,9 +389,44 @@ Proof.
     + destruct (region_exact_with_good (rd_P k) (rd_P_anti k) fuel (rd_exact md fuel k) r addr (g_len r) s m count (rd_exact_good md fuel k) HP Hw ltac:(lia)) as (s' & m' & y & E & _). eauto.
     + destruct (region_upto_good (wr_P k) (wr_P_anti k) (wr_call md k) (wr_call_good md k) fuel r addr (g_len r) s m count HP Hw Hc Hf0) as (s' & m' & y & E & _). eauto.
     + destruct (region_exact_with_good (wr_P k) (wr_P_anti k) fuel (wr_all md fuel k) r addr (g_len r) s m count (wr_all_good md fuel k) HP Hw ltac:(lia)) as (s' & m' & y & E & _). eauto.
-  - destruct x as [k|k|k|k]; cbn [own_P] in HP; apply omap_val_ex.
+  - fold (total_len L) in *. destruct x as [k|k|k|k]; cbn [own_P] in HP; apply omap_val_ex.
     + apply (gm_read_volatile_from_good (rd_P k) (rd_P_anti k) md L fuel _ addr s m count (rd_call_good md k) Hc HP Hf0 Hf).
     + apply (gm_read_exact_volatile_from_good (rd_P k) (rd_P_anti k) md L fuel _ addr s m count (rd_call_good md k) Hc HP Hf0 Hf).
     + apply (gm_write_volatile_to_with_good (wr_P k) (wr_P_anti k) md L fuel _ addr s m count (wr_all_good md fuel k) Hc HP Hf).
     + apply (gm_write_all_volatile_to_with_good (wr_P k) (wr_P_anti k) md L fuel _ addr s m count (wr_all_good md fuel k) Hc HP Hf).
+Qed.
+
+(* ------------------------------------------------------------------ a Cursor positioned at or past its end
+   (ANY position up to u64::MAX): a read yields 0 bytes and leaves everything as it was, a write accepts 0 bytes
+   (so write_all_volatile of a non-empty buffer answers WriteZero), in both build profiles - never a panic.
+   (The clamp `position().min(len)` of io.rs:349 / :361 / :373 is what makes the slicing `[pos..]` safe.) *)
+Lemma cursor_past_end_lemma : forall md st m v, cur_ok st -> nlen (s_data st) <= s_pos st ->
+  cursor_read_volatile md st m v = Val ((st, m), Ok 0) /\
+  (cursor_read_exact_volatile md st m v =
+     if 0 <? vs_len v then Val ((st, m), Err (VIo EUnexpectedEof)) else Val ((st, m), Ok tt)) /\
+  cursor_write_volatile md st m v = Val ((st, m), Ok 0).
+Proof.
+  intros md st m v Hc Hp. pose proof Hc as [Hp64 Hd64].
+  assert (Hs : Std.cur_start st = nlen (s_data st)) by (unfold Std.cur_start; lia).
+  assert (Hr : ndrop (Std.cur_start st) (s_data st) = []) by (apply ndrop_all; lia).
+  assert (Hn0 : nlen (@nil N) = 0) by reflexivity.
+  assert (Ht0 : forall l : list N, ntake 0 l = []) by reflexivity.
+  split; [|split].
+  - rewrite (cursor_read_val md st m v Hc). cbv zeta. rewrite Hr, Hn0, N.min_0_r, N.add_0_r, Ht0, mem_write_nil.
+    destruct st; reflexivity.
+  - rewrite (cursor_read_exact_val md st m v Hc). cbv zeta. rewrite Hr, Hn0.
+    destruct (N.ltb_spec 0 (vs_len v)) as [Hlt|Hge]; [reflexivity|].
+    assert (Hz : vs_len v = 0) by lia. rewrite Hz, N.add_0_r, Ht0, mem_write_nil.
+    destruct st; reflexivity.
+  - rewrite (cursor_write_val md st m v Hc). cbv zeta. rewrite Hs, N.sub_diag, N.min_0_r, N.add_0_r.
+    unfold mem_read. rewrite Ht0, mem_write_nil. destruct st; reflexivity.
+Qed.
+
+Lemma own_endpoints_good_lemma : forall md fuel,
+  (forall k, good_call (rd_P k) (rd_call md k)) /\
+  (forall k, good_call (wr_P k) (wr_call md k)) /\
+  (forall k, good_exact (rd_P k) fuel (rd_exact md fuel k)) /\
+  (forall k, good_exact (wr_P k) fuel (wr_all md fuel k)).
+Proof.
+  intros md fuel. split; [apply rd_call_good|]. split; [apply wr_call_good|]. split; [apply rd_exact_good|apply wr_all_good].
 Qed.
